@@ -278,8 +278,25 @@ fn tls_behave() -> Box<dyn FnMut(usize, &Cb) -> Behavior> {
             let n: usize = t[5..].parse().unwrap_or(0);
             Behavior::Prog(Arc::new(vec![WOp::Start(c1.clone()), WOp::WriteRow(vec![Val::Bytes((0..n).map(|k| (k % 253) as u8).collect())]), WOp::Finish]))
         }
+        // "err=<n>": an ERR with a message of n bytes at once; "late=<n>": two rows, then that ERR
+        Cb::Query(t) if t.starts_with("err=") => {
+            let n: usize = t[4..].parse().unwrap_or(0);
+            Behavior::Prog(Arc::new(vec![WOp::Error(msql_srv::ErrorKind::ER_NO_SUCH_TABLE, tls_err_msg(n))]))
+        }
+        Cb::Query(t) if t.starts_with("late=") => {
+            let n: usize = t[5..].parse().unwrap_or(0);
+            Behavior::Prog(Arc::new(vec![WOp::Start(c1.clone()), WOp::WriteRow(vec![Val::Bytes(b"r1".to_vec())]), WOp::WriteRow(vec![Val::Bytes(b"r2".to_vec())]), WOp::FinishError(msql_srv::ErrorKind::ER_QUERY_INTERRUPTED, tls_err_msg(n))]))
+        }
+        Cb::Prepare(t) if t.starts_with("refuse=") => {
+            let n: usize = t[7..].parse().unwrap_or(0);
+            Behavior::PrepError(msql_srv::ErrorKind::ER_PARSE_ERROR, tls_err_msg(n))
+        }
         other => std(i, other),
     })
+}
+
+fn tls_err_msg(n: usize) -> Vec<u8> {
+    "d\u{e9}fendu: ".bytes().chain((0..n).map(|k| b'a' + (k % 26) as u8)).take(n).collect()
 }
 
 struct TlsOutcome {
@@ -1193,6 +1210,77 @@ impl Family for TlsRequestSizes {
     }
 }
 
+/// error replies inside a TLS session: an ERR at once, an ERR behind rows, a refused PREPARE, with
+/// messages of every length in windows (empty, short, around the TLS record size), followed by a
+/// PING; the client must decode code, SQLSTATE and message exactly as on a plaintext connection
+struct TlsErrors {
+    lens: Vec<usize>,
+}
+impl TlsErrors {
+    fn new(quick: bool) -> Self {
+        let mut lens: Vec<usize> = (0..40).collect();
+        lens.extend([250, 251, 252, 600, 5000]);
+        for c in if quick { vec![16_384usize] } else { vec![16_384usize, 32_768, 65_536] } {
+            lens.extend(c - 40..=c + 10);
+        }
+        TlsErrors { lens }
+    }
+}
+impl Family for TlsErrors {
+    fn name(&self) -> String {
+        "error-replies-inside-tls".into()
+    }
+    fn len(&self) -> u64 {
+        self.lens.len() as u64 * 3
+    }
+    fn run(&self, idx: u64, st: &mut Stats) -> Result<(), Violation> {
+        let n = self.lens[(idx / 3) as usize];
+        let site = idx % 3;
+        st.nontrivial += 1;
+        st.bump("tls_error_replies");
+        let (cmd, kind) = match site {
+            0 => (q(format!("err={}", n).as_bytes()), msql_srv::ErrorKind::ER_NO_SUCH_TABLE),
+            1 => (q(format!("late={}", n).as_bytes()), msql_srv::ErrorKind::ER_QUERY_INTERRUPTED),
+            _ => (ClientCmd::new(with_byte(COM_STMT_PREPARE, format!("refuse={}", n).as_bytes())), msql_srv::ErrorKind::ER_PARSE_ERROR),
+        };
+        SCRIPT_CMDS.with(|c| *c.borrow_mut() = Some(vec![q(b"SELECT 1"), cmd, ping()]));
+        let o = run_tls_full(Some(pki().server_plain.clone()), false, vec![], usize::MAX, 0, false, None, 2);
+        let (_, conv, last_seq) = script_with(2);
+        SCRIPT_CMDS.with(|c| *c.borrow_mut() = None);
+        let what = format!("{} with a message of {} bytes inside TLS", ["an ERR at once", "an ERR behind two rows", "a refused PREPARE"][site as usize], n);
+        if let ConnResult::Panic(l, m) = &o.res {
+            return Err(Violation::new(panic_key(l, m), format!("{}: run_on panicked at {}: {}", what, l, m)));
+        }
+        if o.st.hang {
+            return Err(Violation::new("hang", format!("{}: the server waited for bytes although the client had sent everything", what)));
+        }
+        if let Some(e) = &o.st.tls_error {
+            return Err(Violation::new("tls-error", format!("{}: {}", what, e)));
+        }
+        let g = o.st.greeting_len.unwrap_or(0);
+        only_tls_records(&o.st.from_server[g..]).map_err(|e| Violation::new("plaintext-after-switch", format!("{}: {}", what, e)))?;
+        if !o.res.is_ok() {
+            return Err(Violation::new("result-not-ok", format!("{}: run_on returned {}", what, o.res.short())));
+        }
+        let mut all = o.st.from_server[..g].to_vec();
+        all.extend_from_slice(&o.st.decrypted);
+        let d = decode_all(&all, &conv, &last_seq, 4, false).map_err(|e| Violation::new("decrypted-replies", format!("{}: {}", what, e)))?;
+        let e = match d.replies[1].last() {
+            Some(Unit::Err(e)) => e.clone(),
+            Some(Unit::ResultSet { rows, end: Err(e), .. }) if rows.len() == 2 => e.clone(),
+            other => return Err(Violation::new("no-error-packet", format!("{}: the reply ends with {:?}", what, other.map(|u| format!("{:?}", u).chars().take(80).collect::<String>())))),
+        };
+        if e.code != kind as u16 || e.state != kind.sqlstate().to_vec() || e.msg != tls_err_msg(n) {
+            return Err(Violation::new("error-altered-inside-tls", format!("{}: the client decodes code {}, SQLSTATE {:?}, a message of {} bytes", what, e.code, String::from_utf8_lossy(&e.state), e.msg.len())));
+        }
+        Ok(())
+    }
+    fn describe(&self, idx: u64) -> J {
+        let site = ["query refused", "error behind rows", "prepare refused"][(idx % 3) as usize];
+        json!({"message_bytes": self.lens[(idx / 3) as usize], "site": site})
+    }
+}
+
 /// a TLS client that says goodbye properly (close_notify, then end of stream) at every kind of
 /// position: right after the TLS handshake and before the login packet, inside the login packet, at
 /// the end of it, inside and at the end of the commands behind it. run_on returns Ok exactly when
@@ -1280,6 +1368,7 @@ pub fn build(quick: bool) -> Check {
     families.push(Box::new(TlsGoodbyes));
     families.push(Box::new(TlsReplySizes::new(quick)));
     families.push(Box::new(TlsRequestSizes::new(quick)));
+    families.push(Box::new(TlsErrors::new(quick)));
     families.push(Box::new(TlsWalks { depth: 3 }));
     families.push(Box::new(TlsWalks { depth: if quick { 4 } else { 5 } }));
     Check {
